@@ -98,6 +98,8 @@ static void decode_spec(struct tape *t, struct gm_spec *g)
 	g->zero_delay = (uint8_t[]){0, 20, 60, 120}[t_choice(t, 4)];
 	g->send_prob = (uint8_t[]){110, 60, 150, 200}[t_choice(t, 4)];
 	g->dest_mode = (uint8_t)t_choice(t, 5);
+	if(c07 && t_prob(t, 120))
+		g->dest_mode = t_prob(t, 170) ? 2 : 4;
 #ifdef RSV_E4
 	if(g->dest_mode >= 3 && t_prob(t, 200))
 		g->dest_mode = (uint8_t)t_choice(t, 2); /* cross-rank traffic */
@@ -159,10 +161,35 @@ static void decode_spec(struct tape *t, struct gm_spec *g)
 		} else
 			g->goal[i] = (uint16_t)(goal_base / 2 + t_choice(t, goal_base));
 	}
-	if(c07 && g->dest_mode == 4 && t_prob(t, 200)) {
+	if(c07 && g->dest_mode == 2 && g->n_lps >= 2) {
+		/* "late victim": LP 0 is the fan-in target of the others and finishes last, so the event that makes its predicate
+		 * true usually comes from another LP and may be cancelled afterwards by its sender */
+		unsigned mx = 0;
+		for(unsigned i = 1; i < g->n_lps; i++)
+			mx = g->goal[i] > mx ? g->goal[i] : mx;
+		g->goal[0] = (uint16_t)(mx * (2 + t_choice(t, 3)) + 3);
+		g->t0_zero[0] = 0;
+		if(t_prob(t, 170))
+			g->victim_nohb = 1; /* goal calibrated against the reference run, see rsv_case() */
+	}
+	if(c07 && g->dest_mode == 4 && g->n_lps >= 3 && t_prob(t, 128)) {
+		/* "starving victim": LP 0 has no heartbeat and a small goal; the event that completes it is a drip from another LP,
+		 * which that LP may cancel later; nothing else is pending for the victim then */
+		g->victim_nohb = 1;
+		/* goal of the victim ~ the number of drips it can expect (each other LP drips once every 3 + seed % 13 handled
+		 * events), so that it completes about when the others finish and the completing drip is among the last ones */
+		unsigned sum = 0, k = 3 + (unsigned)(g->seed % 13);
+		for(unsigned i = 1; i < g->n_lps; i++)
+			sum += g->goal[i];
+		unsigned expect = sum / k;
+		g->goal[0] = (uint16_t)(1 + expect * (5 + t_choice(t, 6)) / 10);
+		g->t0_zero[0] = 0;
+	} else if(c07 && g->dest_mode == 4 && t_prob(t, 200)) {
 		g->goal[0] = 1;
 		g->t0_zero[0] = 1;
 	}
+	if(c07 || c08 || !strcmp(PROP, "C03") || !strcmp(PROP, "C04"))
+		g->post_goal = (uint16_t[]){0, 0, 25, 200, 0, 80}[t_choice(t, 6)]; /* LPs stay active after their predicate holds */
 	g->init_sends = (uint8_t)t_choice(t, 4);
 	g->init_bufs = (uint8_t)t_choice(t, 4);
 	g->stop_lp = -1;
@@ -214,6 +241,12 @@ static void decode_cfg(struct tape *t, struct rt_cfg *c, const struct gm_spec *g
 	c->sched.budget = 20000000ULL;
 	c->sched.noprogress = getenv("RSV_NOPROGRESS") ? strtoull(getenv("RSV_NOPROGRESS"), NULL, 10) : 600000ULL;
 	c->sched.free_perturb_per_1024 = (unsigned[]){0, 20, 200}[t_choice(t, 3)];
+	if(c07 && g->victim_nohb) {
+		c->sched.batch = (unsigned[]){1, 2, 3, 8}[t_choice(t, 4)];
+		c->gvt_period = (unsigned[]){0, 1, 10}[t_choice(t, 3)];
+		if(c->n_threads < 2)
+			c->n_threads = 2 + t_choice(t, 3);
+	}
 	if(RT.preset && !c10 && !c07 && !c08) {
 		c->ckpt_interval = (unsigned[]){1, 1, 2, 3}[t_choice(t, 4)];
 		c->sched.batch = (unsigned[]){1, 2, 3, 8}[t_choice(t, 4)];
@@ -298,6 +331,18 @@ int rsv_case(const uint8_t *tape, size_t len, struct rsv_result *res)
 	decode_cfg(t, &RT.cfg, g);
 	struct rt_cfg *c = &RT.cfg;
 
+	if(g->victim_nohb && g->n_lps > 1) {
+		/* calibration: let the victim run unbounded once, then give it a goal a few events below what it ever receives, so
+		 * that the event completing it is one of the last it gets */
+		uint16_t keep = g->goal[0];
+		g->goal[0] = 60000;
+		refexec_run(g, c->prng_seed, &RT.ref, 400000);
+		size_t n0 = ref_gm_out.rep[0].handled; /* events that count towards the goal (chain events do not) */
+		int bad = RT.ref.truncated || RT.ref.contract_breaches;
+		refexec_free(&RT.ref);
+		unsigned off = (unsigned[]){0, 0, 1, 2}[(unsigned)(g->seed >> 8) % 4];
+		g->goal[0] = bad || n0 < 2 ? keep : (uint16_t)(n0 > off + 1 ? n0 - off : 1);
+	}
 	/* reference run */
 	refexec_run(g, c->prng_seed, &RT.ref, 400000);
 	if(RT.ref.truncated || RT.ref.contract_breaches) {
@@ -317,8 +362,8 @@ int rsv_case(const uint8_t *tape, size_t len, struct rsv_result *res)
 	res->cls[K_STOP_RUNS] = g->stop_lp >= 0;
 	res->cls[K_TT_RUNS] = c->termination_time != 0;
 
-	rsv_sample(res, "lps=%u seed=%llu time=%u la=%u zd=%u sp=%u dest=%u pl=%u rules=%u hb=%u chain=%u/%u goals=[", g->n_lps, (unsigned long long)g->seed,
-	    g->time_mode, g->lookahead_mode, g->zero_delay, g->send_prob, g->dest_mode, g->payload_mode, g->n_rules, g->hb_scale, g->chain_len, g->chain_start);
+	rsv_sample(res, "lps=%u seed=%llu time=%u la=%u zd=%u sp=%u dest=%u pl=%u rules=%u hb=%u chain=%u/%u post=%u goals=[", g->n_lps, (unsigned long long)g->seed,
+	    g->time_mode, g->lookahead_mode, g->zero_delay, g->send_prob, g->dest_mode, g->payload_mode, g->n_rules, g->hb_scale, g->chain_len, g->chain_start, g->post_goal);
 	for(unsigned i = 0; i < g->n_lps && i < 12; i++)
 		rsv_sample(res, "%s%u%s", i ? "," : "", g->goal[i], g->t0_zero[i] ? "@0" : "");
 	rsv_sample(res, "] stop=(%d,%u) | ranks=%u net=%u/%u/%u/%u | %s thr=%u ckpt=%u gvt=%u tt=%g bind=%d stats=%d seed=%llu | sched seed=%llu sw=%u burst=%u/%u hot=%#x div=%u batch=%u | ref ev=%zu",
